@@ -62,6 +62,11 @@ Lookup(p) == /\ pc[p] = "locked"
              /\ UNCHANGED <<cur, arg, table, readers, wmutex, calls, atcall, updating>>
 HandlerEnd(p) == /\ pc[p] = "inh" /\ pc' = [pc EXCEPT ![p] = "ret"]
                  /\ UNCHANGED <<cur, arg, table, readers, wmutex, calls, sawhid, atcall, updating, crashed>>
+\* a handler that panics: the deferred RUnlock still runs (HandlerEnd covers it: the dispatcher goes on to "ret").
+\* Sensitivity only (NextLeak): an explicit unlock after the call instead of the deferred one is skipped by the panic,
+\* conn.serve recovers, and the read lock stays held for ever
+PanicLeak(p) == /\ pc[p] = "inh" /\ pc' = [pc EXCEPT ![p] = "idle"]
+                /\ UNCHANGED <<cur, arg, table, readers, wmutex, calls, sawhid, atcall, updating, crashed>>
 RUnlock(p) == /\ pc[p] = "ret" /\ pc' = [pc EXCEPT ![p] = "unl"] /\ readers' = readers \ {p}
               /\ UNCHANGED <<cur, arg, table, wmutex, calls, sawhid, atcall, updating, crashed>>
 DReturn(p) == /\ pc[p] = "unl" /\ pc' = [pc EXCEPT ![p] = "idle"]
@@ -92,6 +97,7 @@ RReturn(r) == /\ pc[r] = "unl" /\ pc' = [pc EXCEPT ![r] = "idle"]
 Next == \/ \E p \in D : (\E m \in Msgs : DCall(p, m)) \/ RLock(p) \/ Lookup(p) \/ HandlerEnd(p) \/ RUnlock(p) \/ DReturn(p)
         \/ \E r \in R : (\E g \in Regs : RCall(r, g)) \/ WMutex(r) \/ Acquire(r) \/ Update(r) \/ Unlock(r) \/ RReturn(r)
 Spec == Init /\ [][Next]_vars
+NextLeak == Next \/ \E p \in D : PanicLeak(p)
 
 \* ---- properties
 NoCrash == ~crashed
@@ -103,6 +109,8 @@ StableUnderReaders == [][readers # {} => table' = table]_vars
 Prefixes == {SubSeq(table, 1, n) : n \in 0..Len(table)}
 SeesCompleted == \A p \in D : pc[p] \in {"inh", "ret", "unl"} =>
                     \E n \in atcall[p]..Len(table) : sawhid[p] = Dispatch(SubSeq(table, 1, n), cur[p].msg, cur[p].short)
+\* every holder of the read lock is inside a dispatch (so every registration eventually gets the lock)
+ReadersAreRunning == \A p \in readers : pc[p] \in {"locked", "inh", "ret"}
 \* what the code does NOT guarantee (sensitivity: must be violated): a dispatcher is never kept waiting while
 \* no registrar is inside its update, i.e. a handler held on one connection never delays another connection.
 \* With a registration announced behind a running handler, every other dispatch waits for that handler.
